@@ -122,6 +122,9 @@ func (runtime *Runtime) RegisterController(ctrl controller.Controller) error {
 		},
 	)
 	if err != nil {
+		// rejected registration should leave no trace in the dependency database
+		runtime.depDB.DeleteController(name)
+
 		return fmt.Errorf("error initializing controller %q adapter: %w", name, err)
 	}
 
@@ -153,6 +156,9 @@ func (runtime *Runtime) RegisterQController(ctrl controller.QController) error {
 		},
 	)
 	if err != nil {
+		// rejected registration should leave no trace in the dependency database
+		runtime.depDB.DeleteController(name)
+
 		return fmt.Errorf("error initializing controller %q adapter: %w", name, err)
 	}
 
@@ -465,7 +471,9 @@ func (runtime *Runtime) deliverDeduplicatedEvents(ch chan dedup, empty chan<- de
 		runtime.controllersMu.RLock()
 
 		for _, ctrl := range controllers {
-			runtime.controllers[ctrl].WatchTrigger(&k)
+			if adapter, ok := runtime.controllers[ctrl]; ok {
+				adapter.WatchTrigger(&k)
+			}
 		}
 
 		runtime.controllersMu.RUnlock()
